@@ -252,8 +252,11 @@ def write_evidence(mod, ctx, report, tier, seed, t0, violations, extra_assumptio
     ev = {"property_id": mod.ID, "tier": tier, "seed": seed, "level": "proof", "coverage": cov,
           "assumptions": list(getattr(mod, "ASSUMPTIONS", [])) + list(extra_assumptions),
           "wall_s": round(time.time() - t0, 2), "violations": violations}
-    os.makedirs(os.path.join(VERIF, "evidence"), exist_ok=True)
-    with open(os.path.join(VERIF, "evidence", mod.ID + ".json"), "w") as f:
+    # evidence/ only ever describes runs against /repo itself; a run on a scratch worktree (VERIF_REPO) writes elsewhere
+    scratch = os.path.realpath(os.environ.get("VERIF_REPO", "/repo")) != "/repo"
+    evdir = os.path.join(VERIF, "replays", "scratch-evidence") if scratch else os.path.join(VERIF, "evidence")
+    os.makedirs(evdir, exist_ok=True)
+    with open(os.path.join(evdir, mod.ID + ".json"), "w") as f:
         json.dump(ev, f, indent=1, sort_keys=True, default=repr)
 
 
